@@ -813,6 +813,11 @@ def c08(ck):
                     t.add(w[:1].upper() + "".join(c0[0] for c0 in cs[1:4]).encode())
                 if len(cs) > 4:
                     t.add("".join(c[0] + c[1] for c in cs[:3]).encode() + cs[4][0].encode())   # skips a letter
+                # only accents are ignored, and only where the list has them: digits, punctuation, blanks' cousins inside or
+                # around a word make it another token
+                if (i + ck.seed) % (4 if quick else 1) == 0:
+                    k = 1 + (i % max(1, len(w) - 1))
+                    t.update({w + b"1", w + b".", b"7" + w, w[:k] + b"-" + w[k:], w[:k] + b"'" + w[k:], w + b"!", b"(" + w + b")", w[:k] + b"_" + w[k:]})
                 toks[lid] += sorted(t)
             else:
                 if quick and (i + ck.seed) % 8:
@@ -1294,6 +1299,34 @@ def c19(ck):
 
 
 # ----------------------------------------------------------------------------------------------- C09
+_CROSS = {}
+
+
+def cross_accepted(l1, l2):
+    """Words of list l1 (spelled out in full) that list l2 accepts as well, by its own rule (equal key, or a key of at
+    least four letters that is a prefix of one of its words' keys)."""
+    if (l1, l2) not in _CROSS:
+        A, B = codec.lang(l1), codec.lang(l2)
+
+        def key(L, w):
+            return bytes(b for b in w if b < 128) if L["accents"] else bytes(w)
+        kb = [key(B, w) for w in B["wb"]]
+        heads = {}
+        for k in kb:
+            for n in range(4, len(k) + 1):
+                heads.setdefault(k[:n], True)
+        full = set(kb)
+        out = []
+        for i, w in enumerate(A["wb"]):
+            k = key(B, w)
+            if any(b >= 128 for b in w) and not B["accents"]:
+                continue
+            if k in full or (B["prefix"] and len(k) >= 4 and k in heads):
+                out.append(i)
+        _CROSS[(l1, l2)] = out
+    return _CROSS[(l1, l2)]
+
+
 def structured_strings(rng, n):
     """Strings around valid phrases: abbreviations, foreign words, separator and count defects, raw bytes."""
     import unicodedata
@@ -1303,7 +1336,7 @@ def structured_strings(rng, n):
         L = codec.lang(lid)
         idx = rand_idx(rng, features=rng.choice([0, 0, 16, 8, 1]))
         toks = [L["wcb"][i] if rng.chance(1, 2) else L["wb"][i] for i in idx]
-        kind = rng.below(16)
+        kind = rng.below(18)
         sep = b" "
         if kind in (0, 14, 15):
             pass
@@ -1323,6 +1356,12 @@ def structured_strings(rng, n):
             for _ in range(16):
                 P = rng.choice(pools)
                 toks.append(bytes(b for b in P["wb"][rng.below(2048)] if b < 128)[:4])
+        elif kind in (16, 17):  # every token a word of one Latin list spelled out in full that another list accepts too
+            l1, l2 = rng.choice([("en", "es"), ("en", "fr"), ("en", "it"), ("es", "pt"), ("it", "es"), ("fr", "en"), ("pt", "es"), ("es", "it"), ("it", "pt"), ("cs", "it")])
+            pool = cross_accepted(l1, l2)
+            if len(pool) >= 8:
+                P = codec.lang(l1)
+                toks = [P["wb"][rng.choice(pool)] for _ in range(16)]
         elif kind == 5:
             toks = toks[:15]
         elif kind == 6:
@@ -1435,6 +1474,14 @@ def random_walk(rng, length, faults=False, inject=True, name="walk"):
     live = []          # registers that (probably) hold a seed
     cur_mask = [rng.choice([7, 7, 5, 0])]
     s.add("enable", cur_mask[0])
+    # a few strings the library did not issue: what a user might type or paste (abbreviations, other separators,
+    # line ends, foreign words, wrong counts); the decoders' answers to them are part of the abstract model too
+    for st in structured_strings(rng, 3):
+        if 0 < len(st) < 3000 and b"\x00" not in st:
+            have_str.append(s.string(st))
+    r0 = rand_idx(rng)
+    have_str.append(s.string(codec.phrase("en", r0) + rng.choice([b"\n", b"\r\n", b"\t", b" ", b""])))
+    have_str.append(s.string(codec.phrase(rng.choice(LANG_IDS), r0).replace(b" ", rng.choice([b"\t", b"\n", b"  ", b" "]))))
 
     def pick():
         return rng.choice(live) if live and rng.chance(9, 10) else rng.below(H)
